@@ -150,7 +150,10 @@ class Inter:
             return self._ret[cb.id]
         tr = get_tracer(self.facts, cb)
         out = []
+        live = tr.cfg.reachable_from(0)
         for kind, bb, idx in tr.defs.get(0, []):
+            if bb not in live:
+                continue
             blk = cb.blocks[bb]
             if kind == "assign":
                 t = tr.rvalue(blk.stmts[idx].rv, frozenset())
